@@ -61,7 +61,12 @@ def check(ctx):
 RAW_SCANNERS = ("take_until", "take_until1", "take_till", "take_till1", "take_while", "take_while1", "take_while_m_n", "is_not", "is_a",
                 "find", "rfind", "split", "splitn", "rsplit", "rsplitn", "split_once", "rsplit_once", "split_terminator", "split_inclusive",
                 "trim_start_matches", "trim_end_matches", "trim_matches", "strip_suffix", "lines", "anychar", "not_line_ending", "rest",
-                "position", "rposition", "memchr", "match_indices", "rmatch_indices", "matches", "contains")
+                "position", "rposition", "memchr", "match_indices", "rmatch_indices", "matches", "contains",
+                "trim", "trim_start", "trim_end", "starts_with", "ends_with", "strip_prefix")
+PEEKS = ("trim", "trim_start", "trim_end", "starts_with", "ends_with", "strip_prefix")
+ABOVE_OK = {
+    ("css::parser::parse_faulty_color", "trim"): "trims the text of an already tokenised value (a colour written without '#'), not stylesheet text",
+}
 
 
 def rule_h(ctx):
@@ -121,6 +126,8 @@ def rule_g(ctx):
                     _neg, src = b.switch_source(a)
                     if src and src[0] == "discr" and src[1]["l"] == pt[0][1]["dest"]["l"]:
                         errs = [tb for v, tb in b.term(a)["targets"] if v == 1]
+                        if not errs and b.term(a)["otherwise"] is not None and [v for v, _tb in b.term(a)["targets"]] == [0]:
+                            errs = [b.term(a)["otherwise"]]   # `let Ok(..) = .. else {..}`: only the Ok value is listed
                         if errs and b.dominates(errs[0], x):
                             no_token = True
             okc = no_token or unreachable_without_edges(b, x, cut)
@@ -159,6 +166,8 @@ def rule_f(ctx):
                 raw = True
             if not raw:
                 continue
+            if in_tok and nm in PEEKS:
+                continue  # a bounded look at the next characters is what a tokenizer does
             if in_tok:
                 control += 1
                 why = TOKENIZER_SCANS.get((fn_key(b), nm))
@@ -169,6 +178,9 @@ def rule_f(ctx):
                                   "a new raw character scan inside the tokenizer (%s): the reviewed ones are the comment body, the "
                                   "string body and the escape sequence; any other must be shown not to run over quotes, "
                                   "comments or brackets that belong to other tokens" % nm)
+                continue
+            if (root, nm) in ABOVE_OK:
+                ctx.ok("C17-F", "raw-scan@%s:%s" % (fn_key(b), nm), t["span"], b.id, ABOVE_OK[(root, nm)], how="table")
                 continue
             n += 1
             ctx.violation("C17-F", "raw-scan@%s:%s" % (fn_key(b), nm), t["span"], b.id,
